@@ -1,6 +1,6 @@
 From Mds Require Import Common.ExtractBase Gen.CacheIdx Gen.CacheLru Gen.CacheLocks Heapq.HeapqModel Cache.CacheSpec Cache.CacheModel.
 Require Extraction.
 Require Import ExtrOcamlBasic.
-Extraction "cache_model.ml" CacheModel.run_Z CacheModel.size_mode CacheModel.cache_len CacheModel.cache_size
+Extraction "cache_model.ml" CacheModel.run_Z CacheModel.safe_Z CacheModel.size_mode CacheModel.cache_len CacheModel.cache_size
   HeapqModel.pinned HeapqModel.repaired HeapqModel.current_variant
   CacheSpec.s2_run CacheSpec.s2_states CacheSpec.s1_states CacheSpec.s1_first_reject CacheSpec.total base_types.
